@@ -47,6 +47,9 @@ CHECKS["C13"] = ("exploration", "E1", "bounded exhaustive enumeration of wholly 
 CHECKS["C14"] = ("exploration", "E1", "bounded exhaustive enumeration of wholly known argument lists; differential comparison with reference computations (exact rationals, float64 math, Go strings/regexp/fmt/encoding/time, grapheme-cluster splitter) answering Ok / DomainError / Unspecified",
   "Each of the 49 number, string, regex, format, encoding, date, bool and bytes functions x the full Cartesian product of its per-position seed alphabets (numbers of all magnitude/precision classes, strings with multi-code-point clusters and normalising sequences, format strings over the documented verb grammar, RFC 3339 stamps and near-misses, durations, JSON and CSV documents): where the reference is specified the call must succeed with the reference's value and type (numeric results under the C02 precision rule, float64 results to 1e-9 relative), must fail exactly outside the documented domain, and decoding is the inverse of encoding.",
   "trusted: the reference functions of c14.go, textseg as the definition of a grapheme cluster, Go fmt for numeric verbs; Unspecified zones listed in DESIGN appendix B and in the reference's rUnspec reasons", "§3 C13/C14, §8")
+CHECKS["C15"] = ("exploration", "E1", "bounded exhaustive enumeration of (value, type constraint with placeholders) pairs and of JSON documents from a grammar; encode/decode round trip, plain-JSON mirror via encoding/json, structural implied type",
+  "Every wholly known, unmarked, capsule-free value of the bounded universe (all kinds, nulls at any depth, empty collections, the full finite number alphabet, normalising strings) x every constraint obtained by replacing any antichain of sub-types by the dynamic placeholder: Marshal succeeds, its bytes are valid JSON whose plain decoding mirrors the value (with {value,type} wrappers exactly at placeholder positions), Unmarshal with the same constraint gives the same type and a RawEquals value. Every document of a JSON grammar (depth 3, scalars in several spellings, duplicate and normalising keys): ImpliedType is the structural type, Unmarshal succeeds, re-marshalling and SimpleJSONValue reproduce the document up to key order, number spelling and NFC. Unknown, marked and infinite values are rejected with an error.",
+  "trusted: encoding/json as judge of validity and plain decoding; the mirror and structural-type functions of c15.go; bound: codecTypes x member caps (c15.go)", "§3 C15/C16")
 NOT_YET = {}
 props = [json.loads(l) for l in open('/verif/properties.jsonl')]
 checks = []
